@@ -8,7 +8,8 @@ From Coq Require Import Ascii String.
 From Coq Require Import Reals ZArith List Permutation.
 From PV Require Import Num NumR Model_density Proofs_geometry Proofs_density.
 From PV Require Import Model_poles_axes Proofs_poles_axes.
-From PV.gen Require Import Gen_geometry.
+From PV Require Import Inst_density Inst_density_all.
+From PV.gen Require Import Gen_geometry Gen_density.
 Import ListNotations.
 Open Scope R_scope.
 
@@ -232,3 +233,72 @@ Example C20_nonvacuous :
   kamb_radius_kernel 3 /\ INR (length [1; 1]) <= 10 * 10 /\
   Forall2 flipped [((1, 0, 0) : @vec3 NumR)] [@neg3 NumR (1, 0, 0)].
 Proof. exact C20_nonvacuous_proof. Qed.
+
+(* ================================================================================================ *)
+(* TIE T for point_density and for poles on several orientations: statements about the code          *)
+(* REGENERATED from pydrex/stats.py / pydrex/geometry.py on every run (gen/Gen_density.v).           *)
+(* `generated_density k axial g n gen` enumerates the 19 definitions traced from the public function *)
+(* point_density (all five kernels, axial and not, g x g counting grids with g = 2 or 3, n = 1 or 2  *)
+(* data vectors); arrays are flat (`A l` = `mk_arr 0 l`), `zip3 xs ys zs` are the data vectors.      *)
+(* ================================================================================================ *)
+
+(* every generated definition IS the hand-written list model, for all data, weights and sigma <> 0 *)
+Theorem C20_generated_density_is_model :
+  forall k axial g n gen, generated_density k axial g n gen ->
+  forall (xs ys zs : list R) (sigma w : R),
+    length xs = n -> length ys = n -> length zs = n -> sigma <> 0 ->
+    gen (A xs) (A ys) (A zs) sigma w = Ok (pack3 (@point_density NumR k sigma w axial g (zip3 xs ys zs))).
+Proof. exact generated_density_is_model. Qed.
+
+(* order independence, on generated code *)
+Theorem C20_generated_density_perm :
+  forall k axial g n gen, generated_density k axial g n gen ->
+  forall (sigma w : R), sigma <> 0 ->
+  forall xs ys zs xs' ys' zs' : list R,
+    length xs = n -> length ys = n -> length zs = n -> length xs' = n -> length ys' = n -> length zs' = n ->
+    Permutation (zip3 xs ys zs) (zip3 xs' ys' zs') ->
+    gen (A xs) (A ys) (A zs) sigma w = gen (A xs') (A ys') (A zs') sigma w.
+Proof. exact generated_density_perm. Qed.
+
+(* axial sign independence, on generated code: every kernel including schmidt_count *)
+Theorem C20_generated_density_axial_sign :
+  forall k g n gen, generated_density k true g n gen ->
+  forall (sigma w : R) (xs ys zs xs' ys' zs' : list R), sigma <> 0 ->
+    length xs = n -> length ys = n -> length zs = n -> length xs' = n -> length ys' = n -> length zs' = n ->
+    Forall2 flipped (zip3 xs ys zs) (zip3 xs' ys' zs') ->
+    gen (A xs') (A ys') (A zs') sigma w = gen (A xs) (A ys) (A zs) sigma w.
+Proof. exact generated_density_axial_sign. Qed.
+
+(* what generated code returns: g*g grid points in the closed unit disk; the totals are the clipped
+   normalisation of the raw totals -- every entry >= 0, and the normalisation has grid mean 1 before the
+   clip (guard: raw grid mean <> 0) *)
+Theorem C20_generated_density_shape :
+  forall k axial g n gen, generated_density k axial g n gen ->
+  forall (sigma w : R), sigma <> 0 ->
+  forall (xs ys zs : list R) X Y T,
+    length xs = n -> length ys = n -> length zs = n ->
+    gen (A xs) (A ys) (A zs) sigma w = Ok (X, Y, T) ->
+    exists Xl Yl raw,
+      X = A Xl /\ Y = A Yl /\ T = A (@clip NumR (@normalise NumR raw)) /\
+      raw = @raw_totals NumR k sigma w axial g (zip3 xs ys zs) /\
+      length Xl = (g * g)%nat /\ length (@clip NumR (@normalise NumR raw)) = (g * g)%nat /\
+      Forall2 (fun a b : R => a * a + b * b <= 1) Xl Yl /\
+      Forall (fun t => 0 <= t) (@clip NumR (@normalise NumR raw)) /\
+      (@mean_list NumR raw <> 0 -> @mean_list NumR (@normalise NumR raw) = 1).
+Proof. exact generated_density_shape. Qed.
+
+(* poles regenerated for 2 and 3 orientations: the batch is the one-orientation function, grain by grain *)
+Theorem C20_generated_poles_batch_is_map :
+  forall ax n gen, generated_poles_batch ax n gen ->
+  forall os hkl : list R, length os = (9 * n)%nat -> length hkl = 3%nat ->
+    gen (A os) (A hkl) = pack_poles (@poles_all NumR ax (chunks9 n os) (A hkl)).
+Proof. exact generated_poles_batch_is_map. Qed.
+
+Example C20_generated_nonvacuous :
+  generated_density 1 true 2 1 (fun x y z s w => Ok (@k_point_density_k1_a1_g2_n1 NumR x y z s w)) /\
+  generated_density 3 true 2 1 (@k_point_density_k3_a1_g2_n1 NumR) /\
+  (10 : R) <> 0 /\
+  Forall2 flipped (zip3 [1] [0] [0]) (zip3 [-1] [-0] [-0]) /\
+  Permutation (zip3 [1; 0] [0; 1] [0; 0]) (zip3 [0; 1] [1; 0] [0; 0]) /\
+  generated_poles_batch 1 2 (@k_poles_batch_xz_n2 NumR).
+Proof. exact generated_density_nonvacuous. Qed.
